@@ -88,13 +88,35 @@ where I: ExactSizeIterator<Item = T>, F: Fn(&T) -> usize {
     })).ok()
 }
 
+/// like trace_iter, but include_private is switched before every len()/next() following `sched`
+macro_rules! trace_sched {
+    ($it:expr, $sched:expr, $id_of:expr) => {{
+        let sched: Vec<bool> = $sched.clone();
+        catch(AssertUnwindSafe(move || {
+            let mut it = $it;
+            let mut tr = vec![];
+            let mut k = 0usize;
+            loop {
+                if k < sched.len() { it = it.include_private(sched[k]); }
+                k += 1;
+                let l = it.len();
+                match it.next() { Some(x) => tr.push((l, $id_of(&x))), None => return (tr, it.len()) }
+            }
+        })).ok()
+    }};
+}
+
 pub struct Observed {
+    /// traces with include_private switched in the middle of the iteration
+    pub m_sw: Trace, pub nm_sw: Trace,
     pub m: [Trace; 2], pub nm: [Trace; 2],
     /// per matching rule: pattern-iterator traces (exclude / include private)
     pub pats: Vec<(usize, [Trace; 2])>,
 }
 
-pub fn observe(results: &yara_x::ScanResults) -> Observed {
+pub fn observe(results: &yara_x::ScanResults, sched: &Vec<bool>) -> Observed {
+    let m_sw: Trace = trace_sched!(results.matching_rules(), sched, |r: &yara_x::Rule| rule_id(r.identifier()));
+    let nm_sw: Trace = trace_sched!(results.non_matching_rules(), sched, |r: &yara_x::Rule| rule_id(r.identifier()));
     let m0 = trace_iter(results.matching_rules(), |r| rule_id(r.identifier()));
     let m1 = trace_iter(results.matching_rules().include_private(true), |r| rule_id(r.identifier()));
     let n0 = trace_iter(results.non_matching_rules(), |r| rule_id(r.identifier()));
@@ -108,7 +130,7 @@ pub fn observe(results: &yara_x::ScanResults) -> Observed {
         let t1 = trace_iter(r.patterns().include_private(true), pid);
         pats.push((rule_id(r.identifier()), [t0, t1]));
     }
-    Observed { m: [m0, m1], nm: [n0, n1], pats }
+    Observed { m_sw, nm_sw, m: [m0, m1], nm: [n0, n1], pats }
 }
 
 fn coq_trace(t: &Trace) -> String {
@@ -171,17 +193,18 @@ pub fn run(args: &[String]) -> i32 {
             Err(e) => { eprintln!("c17: generator produced a rejected source: {e}\n{}", full_source(&rules)); return 2; }
         };
         let data = data_for(&rules);
+        let sched: Vec<bool> = (0..rng.below(8)).map(|_| rng.chance(1, 2)).collect();
         let obs = if block_mode {
             let mut s = yara_x::blocks::Scanner::new(&compiled);
             let cut = data.len() / 2;
             s.scan(0, &data[..cut]).unwrap();
             s.scan(cut, &data[cut..]).unwrap();
             let r = s.finish().unwrap();
-            observe(&r)
+            observe(&r, &sched)
         } else {
             let mut s = yara_x::Scanner::new(&compiled);
             let r = s.scan(&data).unwrap();
-            observe(&r)
+            observe(&r, &sched)
         };
         stats.inc("rule_sets");
         stats.inc(&format!("rules_{}", match rules.len() { 0 => "0", 1..=3 => "1-3", 4..=10 => "4-10", _ => "11+" }));
@@ -199,11 +222,13 @@ pub fn run(args: &[String]) -> i32 {
             Cond::Ref { neg, id } => format!("CRef {} {}", coq_bool(*neg), coq_nat(*id)) });
         let coq_pats = coq_list(&rules, |r| coq_list(&r.pats, |p| coq_bool(p.0).to_string()));
         let coq_obs_pats = coq_list(&obs.pats, |(id, t)| format!("({}, {}, {})", coq_nat(*id), coq_trace(&t[0]), coq_trace(&t[1])));
-        let case = format!("mkCase {} {} {} {} {} {} {} {}", coq_rules, coq_conds, coq_pats,
-            coq_trace(&obs.m[0]), coq_trace(&obs.m[1]), coq_trace(&obs.nm[0]), coq_trace(&obs.nm[1]), coq_obs_pats);
+        let case = format!("mkCase {} {} {} {} {} {} {} {} {} {} {}", coq_rules, coq_conds, coq_pats,
+            coq_trace(&obs.m[0]), coq_trace(&obs.m[1]), coq_trace(&obs.nm[0]), coq_trace(&obs.nm[1]), coq_obs_pats,
+            coq_list(&sched, |b| coq_bool(*b).to_string()), coq_trace(&obs.m_sw), coq_trace(&obs.nm_sw));
+        if sched.len() >= 2 && sched.windows(2).any(|w| w[0] != w[1]) { stats.inc("include_private_switched_mid_iteration"); }
         let replay = format!("{{\"index\":{},\"block_mode\":{},\"source\":{},\"data_hex\":\"{}\",\"observed\":{}}}",
             i, block_mode, json_str(&full_source(&rules)), hex(&data),
-            json_str(&format!("matching={:?}/{:?} non_matching={:?}/{:?}", obs.m[0], obs.m[1], obs.nm[0], obs.nm[1])));
+            json_str(&format!("matching={:?}/{:?} non_matching={:?}/{:?} schedule={:?} matching_sw={:?} non_matching_sw={:?}", obs.m[0], obs.m[1], obs.nm[0], obs.nm[1], sched, obs.m_sw, obs.nm_sw)));
         if samples.len() < 3 && rules.len() >= 3 { samples.push(replay.clone()); }
         shards.push(case, replay);
     }
